@@ -297,6 +297,25 @@ def err_ring(F, R):
                 'pop_error does not pop the error ring', detail='self.error_consumer.pop().ok()')
 
 
+def err_gate_first(F, R, rule='B.C10.err-stop'):
+    """A streaming sound whose decoder failed is finished at the next callback whatever state it is in (paused, waiting for
+    its start time, waiting to resume): the test of the error flag is the first thing `process` does - it is passed on
+    every path, before any of the exits that return silence for a sound that is not advancing."""
+    pb = F.body('<%s as sound::Sound>::process' % SS)
+    if not R.check(pb is not None, rule, 'anchor:first', 'StreamingSound::process not found'):
+        return
+    ee = calls_to(pb, 'Shared::encountered_error')
+    if not R.check(len(ee) == 1, rule, 'site:first', 'encountered_error() gate not found once'):
+        return
+    g = ee[0][0]
+    every = all(pb.dominates(g, r) for r in pb.return_blocks())
+    first_calls = [x for x, t in pb.calls() if pb.dominates(x, g) and x != g]
+    first = all((callee_path(pb.blocks[x]['term']) or '').endswith(('::deref', 'Shared::encountered_error')) for x in first_calls)
+    R.check(every and first, rule, 'error-gate:first', 'the decoder-error test of StreamingSound::process is not the first thing on every path (%s): a sound that is '
+            'paused or waiting when its decoder fails is never stopped and keeps its slot' % ('skipped on some path' if not every else 'work is done before it'),
+            detail='error gate first, on every path', where=pb.where(g))
+
+
 def err_propagation(F, R):
     """Every decoder error (decode, seek - at start, mid-stream, while seeking) reaches run()'s caller: inside the scheduler
     each Result carrying the decoder's Error is propagated (?, match, returned), never dropped or unwrapped."""
